@@ -735,6 +735,57 @@ theorem FwdOk.noLagAll {cap : Nat} {log pubs : List M} {dead : List Nat} {f : Fw
   simp only [List.length_drop] at *
   omega
 
+/-! ### the two-step `send`: every run with publishers in flight is a run of the atomic machine -/
+
+theorem V1t.step_base (st : V1t M O) (o : Op1t M O) :
+    (st.step o).base = st.base ∨ ∃ o', (st.step o).base = st.base.step o' := by
+  cases o with
+  | op o => exact Or.inr ⟨o, rfl⟩
+  | pubCheck m =>
+    simp only [V1t.step]
+    split
+    · exact Or.inl rfl
+    · split
+      · exact Or.inl rfl
+      · exact Or.inr ⟨.op (.publish m), rfl⟩
+  | pubStore i =>
+    simp only [V1t.step]
+    split
+    · exact Or.inl rfl
+    · rename_i m _; exact Or.inr ⟨.op (.publish m), rfl⟩
+
+/-- (linearizability of the two-step `send`) the port reached by any interleaving of checks,
+stores and everything else is the port reached by an ATOMIC run: each publication takes effect
+at its check if the publisher saw no receiver (dropped there), at its store otherwise -/
+theorem V1t.run_base (st : V1t M O) (ops : List (Op1t M O)) :
+    ∃ ops', (st.run ops).base = st.base.run ops' := by
+  induction ops generalizing st with
+  | nil => exact ⟨[], rfl⟩
+  | cons o ops ih =>
+    obtain ⟨ops', h⟩ := ih (st.step o)
+    simp only [V1t.run, List.foldl_cons] at h ⊢
+    rcases V1t.step_base st o with hb | ⟨o', hb⟩
+    · exact ⟨ops', by rw [h, hb]⟩
+    · exact ⟨o' :: ops', by rw [h, hb]; rfl⟩
+
+/-- a publisher is in flight only because it saw a receiver; nothing is in flight on a port that
+was closed when it checked -/
+theorem V1t.pubCheck_cases (st : V1t M O) (m : M) :
+    (st.base.closed = true ∧ st.step (.pubCheck m) = st) ∨
+    (st.base.closed = false ∧ st.base.base.hasReceiver = true ∧
+        (st.step (.pubCheck m)).base = st.base ∧ (st.step (.pubCheck m)).pending = st.pending ++ [m]) ∨
+    (st.base.closed = false ∧ st.base.base.hasReceiver = false ∧
+        (st.step (.pubCheck m)).base = st.base.step (.op (.publish m)) ∧
+        (st.step (.pubCheck m)).pending = st.pending ∧
+        (st.step (.pubCheck m)).base.base.log = st.base.base.log) := by
+  cases hc : st.base.closed with
+  | true => left; simp [V1t.step, hc]
+  | false =>
+    right
+    cases hr : st.base.base.hasReceiver with
+    | true => left; simp [V1t.step, hc, hr]
+    | false => right; simp [V1t.step, V1c.step, V1.publish, hc, hr]
+
 theorem V1c.task_inv (st : V1c M O) (i : Nat) (h : Inv1 st.base) : Inv1 (st.task i).1.base := by
   have := V1c.step_base st (.op (.task i))
   rcases this with hb | ⟨o', hb⟩
